@@ -521,6 +521,28 @@ fn rollup(init: usize, checks: &mut u64) -> Fails {
         }
         Err(e) => f.push(("consist-force-max-unavailable@Consist::force_max".into(), format!("{e:#}"))),
     }
+    // a consist in which some units' masses are unknown (reachable through accepted updates with the documented option
+    // SetMassToNone) has no known mass: every subset of unknown units -- the reported mass must never be a number (the
+    // sum over the units that happen to be known is not the consist's mass)
+    let n_units = con.loco_vec.len();
+    if n_units >= 2 {
+        for mask in 1u32..(1u32 << n_units) {
+            let mut c2 = con.clone();
+            let mut ok = true;
+            for k in 0..n_units {
+                if mask & (1 << k) != 0 {
+                    ok &= c2.loco_vec[k].set_mu(0.3 * uc::R, MuSideEffect::SetMassToNone).is_ok() && matches!(c2.loco_vec[k].mass(), Ok(None));
+                }
+            }
+            if !ok {
+                continue;
+            }
+            *checks += 1;
+            if let Ok(Some(m)) = c2.mass() {
+                f.push(("consist-reports-a-mass-although-a-unit-mass-is-unknown@Consist::mass".into(), format!("units with unknown mass: mask {mask:b} of {n_units}; Consist::mass() = {} kg (sum over all units when known: {want_mass})", m.value)));
+            }
+        }
+    }
     // train level: all car mixes with and without override
     for (nl, ne) in [(3u32, 0u32), (0, 4), (5, 7)] {
         for (mo, lo) in [(None, None), (Some(1.234e6), None), (None, Some(333.0)), (Some(2.0e6), Some(500.0))] {
